@@ -20,6 +20,10 @@ theorem l1_new (size resize : Nat) (hs : size < NO) :
     (∃ cs fl, Inv1 (Ht.new size resize : Ht α) cs fl) ∧ (Ht.new size resize : Ht α).toL2 = Ht2.new size resize :=
   new_l2 size resize hs
 
+/-- non-vacuity (audit): `hs` for the dictionary's start size and for a size below `LYHT_MIN_SIZE` -/
+example : (∃ cs fl, Inv1 (Ht.new 1024 1 : Ht Nat) cs fl) ∧ (∃ cs fl, Inv1 (Ht.new 0 2 : Ht Nat) cs fl) :=
+  ⟨(l1_new 1024 1 (by decide)).1, (l1_new 0 2 (by decide)).1⟩
+
 /-- **Every operation preserves the representation invariant and commutes with the abstraction**, with the same reply:
 the index arithmetic of `_lyht_insert_with_resize_cb`, `lyht_remove_with_resize_cb`, `lyht_resize`, `lyht_find_rec`,
 `lyht_find`, `lyht_find_next_with_collision_cb` implements the bucket-list model exactly — for every callback, also
@@ -74,6 +78,53 @@ example : Ht.sizesBelow (fun _ a b => a == b) none none (2 ^ 31 - 1) (Ht.new 8 1
      .ins true true 6 3, .rem 2 3, .find 2 3, .next 1 3, .rem 9 9, .rem 1 3, .rem 3 11, .rem 4 19] := by
   simp only [Ht.sizesBelow]; decide
 
+/-! ### audit support: a populated record array whose `Inv1` comes from `l1_refines_l2` itself -/
+
+/-- the plain keyed callback -/
+def auVe : VEq Nat := fun _ a b => a == b
+
+/-- `sizesBelow` is decidable (so that `decide` discharges it on computed histories) -/
+def auSizesDec (ve : VEq α) (rve cve : Option (VEq α)) (bound : Nat) :
+    (h : Ht α) → (ops : List (Op α)) → Decidable (Ht.sizesBelow ve rve cve bound h ops)
+  | h, [] => inferInstanceAs (Decidable (h.size ≤ bound))
+  | h, o :: os => @instDecidableAnd _ _ (inferInstanceAs (Decidable (h.size ≤ bound))) (auSizesDec ve rve cve bound (h.step ve rve cve o).2 os)
+
+instance (ve : VEq α) (rve cve : Option (VEq α)) (bound : Nat) (h : Ht α) (ops : List (Op α)) :
+    Decidable (Ht.sizesBelow ve rve cve bound h ops) := auSizesDec ve rve cve bound h ops
+
+/-- six inserts (five of them into bucket 3 of 8; the 6th enlarges to 16: chains of 5 and 1 records), one remove from the
+    middle of a chain (its record goes to the head of the free list) -/
+def auOps1 : List (Op Nat) :=
+  [.ins true true 1 3, .ins true true 2 3, .ins false true 3 11, .ins true false 4 19, .ins true true 5 3, .ins true true 6 35,
+   .rem 2 3]
+
+def auH1 : Ht Nat := ((Ht.new 8 1 : Ht Nat).runOps auVe none none auOps1).2
+
+/-- non-vacuity (audit): `l1_refines_l2` instantiated at the fresh table and `auOps1` (hypothesis `sizesBelow` by evaluation) -/
+theorem auH1_inv : ∃ cs fl, Inv1 auH1 cs fl := by
+  obtain ⟨cs, fl, hi⟩ := (l1_new (α := Nat) 8 1 (by decide)).1
+  exact (l1_refines_l2 auVe none none auOps1 _ cs fl hi (by decide)).2.2
+
+example : auH1.size = 16 ∧ auH1.used = 5 ∧ auH1.toL2.buckets =
+    [[], [], [], [(3, 1), (19, 4), (3, 5), (35, 6)], [], [], [], [], [], [], [], [(11, 3)], [], [], [], []] := by decide
+
+/-- non-vacuity (audit): `l1_step_refines` at the populated array `auH1` (hypotheses `Inv1`, `size * 2 < NO`): an insert into
+    the long chain, a remove of a chain head, a `find_next` -/
+example : (auH1.step auVe none none (.ins true true 7 19)).2.toL2 = (auH1.toL2.stepOp auVe none none (.ins true true 7 19)).2 ∧
+    (auH1.step auVe none none (.rem 1 3)).1 = (auH1.toL2.stepOp auVe none none (.rem 1 3)).1 ∧
+    (auH1.step auVe none none (.next 1 3)).1 = (auH1.toL2.stepOp auVe none none (.next 1 3)).1 := by
+  obtain ⟨cs, fl, hi⟩ := auH1_inv
+  exact ⟨(l1_step_refines auVe none none auH1 cs fl hi (by decide) _).2.1,
+    (l1_step_refines auVe none none auH1 cs fl hi (by decide) _).2.2,
+    (l1_step_refines auVe none none auH1 cs fl hi (by decide) _).2.2⟩
+
+/-- non-vacuity (audit): `l1_refines_l2` continued from the populated array (removes down to the shrink 16 → 8) -/
+example : (auH1.runOps auVe none none [.rem 1 3, .rem 3 11, .find 6 35, .next 5 3]).2.toL2 =
+      (auH1.toL2.runOps auVe none none [.rem 1 3, .rem 3 11, .find 6 35, .next 5 3]).2 ∧
+    (auH1.runOps auVe none none [.rem 1 3, .rem 3 11, .find 6 35, .next 5 3]).2.size = 8 := by
+  obtain ⟨cs, fl, hi⟩ := auH1_inv
+  exact ⟨(l1_refines_l2 auVe none none _ auH1 cs fl hi (by decide)).2.1, by decide⟩
+
 /-- Memory-safety obligation of `_lyht_insert_with_resize_cb` at the index level: whenever the table is not full the head of
 the free list is a valid record index (and it is not, exactly when `used = size` — the case the compiled-out
 `assert(rec_idx < ht->size)` guards). -/
@@ -87,11 +138,36 @@ theorem l1_first_free_in_bounds (h : Ht α) (cs : List (List Nat)) (fl : List Na
     have ha : a < h.size := hi.mem_lt (by rw [hfl]; simp)
     rw [this.1]; omega
 
+/-- non-vacuity (audit): at `auH1` (5 of 16 used, the freed record 1 is the head of the free list) both sides of the `iff` are
+    true; at a fixed-size table filled with 8 of 8 records both are false (`firstFree = size`) -/
+example : (auH1.firstFree < auH1.size ↔ auH1.used < auH1.size) ∧ auH1.used ≤ auH1.size ∧ auH1.firstFree ≤ auH1.size := by
+  obtain ⟨cs, fl, hi⟩ := auH1_inv
+  exact l1_first_free_in_bounds auH1 cs fl hi
+
+example : auH1.firstFree < auH1.size ∧ auH1.used < auH1.size := by decide
+
+/-- a fixed-size table (`resize = 0`) filled to the last record -/
+def auFull : Ht Nat := ((Ht.new 8 0 : Ht Nat).runOps auVe none none ((List.range 8).map fun i => .ins false false i 5)).2
+
+example : (auFull.firstFree < auFull.size ↔ auFull.used < auFull.size) ∧ ¬ auFull.used < auFull.size ∧ auFull.firstFree = auFull.size := by
+  obtain ⟨cs, fl, hi⟩ := (l1_new (α := Nat) 8 0 (by decide)).1
+  obtain ⟨cs', fl', hi'⟩ := (l1_refines_l2 auVe none none ((List.range 8).map fun i => .ins false false i 5) _ cs fl hi
+    (by decide)).2.2
+  exact ⟨(l1_first_free_in_bounds auFull cs' fl' hi').1, by decide, by decide⟩
+
 /-- The walks of the C macros terminate within the fuel the model gives them: under the invariant a chain has at most `size`
 records, so `LYHT_ITER_HLIST_RECS` with fuel `size + 1` sees the whole chain (`toL2` reads exactly the ghost chains). -/
 theorem l1_fuel_sufficient (h : Ht α) (cs : List (List Nat)) (fl : List Nat) (hi : Inv1 h cs fl) :
     h.toL2.buckets = cs.map (fun c => c.map h.item) ∧ h.toL2.used = h.used := by
   refine ⟨?_, hi.used_eq⟩
   rw [hi.toL2_eq]
+
+/-- non-vacuity (audit): at the full fixed-size table `auFull` one chain holds all 8 records — the longest walk the fuel
+    `size + 1` has to cover — and `toL2` still reads all of them -/
+example : auFull.toL2.used = auFull.used ∧ auFull.toL2.used = 8 ∧ (auFull.toL2.buckets.getD 5 []).length = 8 := by
+  obtain ⟨cs, fl, hi⟩ := (l1_new (α := Nat) 8 0 (by decide)).1
+  obtain ⟨cs', fl', hi'⟩ := (l1_refines_l2 auVe none none ((List.range 8).map fun i => .ins false false i 5) _ cs fl hi
+    (by decide)).2.2
+  exact ⟨(l1_fuel_sufficient auFull cs' fl' hi').2, by decide, by decide⟩
 
 end LyModel.Props.C17L1
